@@ -379,6 +379,12 @@ pub fn objects() -> Vec<ObjDef> {
         obj!("boxslice_10001", false, "Box<[u8]> with 10 001 elements", Some(seq(BoxSlice, p(U8))), (0..10001u32).map(|i| i as u8).collect::<std::vec::Vec<u8>>().into_boxed_slice()),
         obj!("array_10000", false, "[u8; 10000] (= MAX_CHILDREN of the default introspect_len)", Some(Ty::Array(bx(p(U8)), 10000)), [0u8; 10000]),
         obj!("array_10001", false, "[u8; 10001] (one more than MAX_CHILDREN)", Some(Ty::Array(bx(p(U8)), 10001)), [0u8; 10001]),
+        // wide nodes behind smart pointers / cells: the wrapper must forward the length of what it holds
+        obj!("arc_vec_10001", false, "Arc<Vec<u8>> with 10 001 elements", Some(wrap(WrapKind::Arc, seq(Vec, p(U8)))), Arc::new((0..10001u32).map(|i| i as u8).collect::<std::vec::Vec<u8>>())),
+        obj!("rc_vec_10001", false, "Rc<Vec<u8>> with 10 001 elements", Some(wrap(WrapKind::Rc, seq(Vec, p(U8)))), Rc::new((0..10001u32).map(|i| i as u8).collect::<std::vec::Vec<u8>>())),
+        obj!("box_vec_10001", false, "Box<Vec<u8>> with 10 001 elements", Some(wrap(WrapKind::Box, seq(Vec, p(U8)))), Box::new((0..10001u32).map(|i| i as u8).collect::<std::vec::Vec<u8>>())),
+        obj!("refcell_vec_10001", false, "RefCell<Vec<u8>> with 10 001 elements", Some(wrap(WrapKind::RefCell, seq(Vec, p(U8)))), RefCell::new((0..10001u32).map(|i| i as u8).collect::<std::vec::Vec<u8>>())),
+        obj!("rc_btreemap_5001", false, "Rc<BTreeMap<u32,u32>> with 5 001 entries (10 002 children)", Some(wrap(WrapKind::Rc, map(BTreeMap, p(U32), p(U32)))), Rc::new((0..5001u32).map(|i| (i, i)).collect::<std::collections::BTreeMap<u32, u32>>())),
         obj!("vec_of_wide", false, "vec![Vec<u8> of 10 001, Vec<u8> of 2]", Some(seq(Vec, seq(Vec, p(U8)))), vec![(0..10001u32).map(|i| i as u8).collect::<std::vec::Vec<u8>>(), vec![1u8, 2]]),
     ]
 }
